@@ -68,8 +68,9 @@ def check(tier, seed):
         rule="type-directed seeded programs of the modelled core (a program is non-trivial when it prints); result value, printed bytes and unhandled-exception identity compared with eval; plus every sample program inside the core",
         samples=st["samples"], shape_programs=shapes, tail_position_programs={k: v for k, v in tp.items() if k != "found"}, stream=st, fault_stream=st2, corpus=corpus, known_defect_probes_hit=known, seed_corpus=seeds,
         share_programs_with_nonconstant_condition=round(st["progs_with_nonconst_cond"] / max(1, st["programs"]), 3),
+        share_programs_with_ranges_or_slices=round(st["progs_with_ranges_or_slices"] / max(1, st["programs"]), 3),
         rejected_by_real_compiler=st["rejected"] + st2["rejected"])
-    rep.assumptions = ["modelled core only (see DESIGN.add.md): no modules, ranges, slices, array arithmetic, FFI, pipe operator, math builtins other than sqrt",
+    rep.assumptions = ["modelled core only (see DESIGN.add.md): no array arithmetic, FFI, math builtins other than sqrt; ranges, slices and the pipe operator are in, modules by linking (docs/DESIGN.add.D3.md)",
                        "beyond the evaluator's own laws nothing here is a proof about emit.c/vmexec.c: it is differential testing, bounded by the generator"]
     return rep.finish()
 
